@@ -151,7 +151,7 @@ func runChunk(dir string, k int, cases []*Case, res map[int]*Result, mu *sync.Mu
 				done++
 				current = -1
 				aborted = r.Abort
-			case <-time.After(150 * time.Second):
+			case <-time.After(400 * time.Second):
 				hang = true
 				cmd.Process.Kill()
 				break loop
